@@ -7,7 +7,7 @@ import itertools
 from ..final import check_call
 from ..kernel import Chooser
 from ..lazy import seq
-from ..seqcheck import explore_task
+from ..seqcheck import explore_task, nest_tasks
 from ..tracelib import split_calls
 
 PID = "C04"
@@ -40,11 +40,13 @@ def tasks(tier):
     for M, pc, mu, dl, bud in itertools.product(
             [1, 2, 3], pcs, [None, 1], [None, 3], [None, {"max": 1, "window": 8}]):
         cfg = dict(M=M, per_class=pc, max_unknown=mu, deadline=dl, budget=bud, alphabet=ALPHA,
-                   durs=[0, 2], abort=True, handler="call", strat_menu=[1, 9],
+                   durs=[0, 2], overshoot=[0, 2], abort=True, handler="call", strat_menu=[1, 9],
                    strat={"default": "ctx", "per": {}} if mu is None else
                    {"default": None, "per": {"T": "ctx", "U": "legacy"}})
         for e in ENTRIES:
             out.append({"family": "surface", "cfg": cfg, "entry": e, "bound": bound, "weight": M})
+    out += nest_tasks(["Retry.call", "AsyncRetry.call", "Policy.call"], "surface-reentrant",
+                      ["ok", "x:T", "r:T", "x:U", "x:T@"], handler="call")
     return out
 
 
